@@ -274,6 +274,47 @@ def one_case(arg):
     return out
 
 
+def many_refs_case(chk, sz, scratch, nrefs, prefix="C07"):
+    """Hundreds of thousands of references that are counted but not walked, on a tiny history: the reference count and
+    the Ignored tally must be exact in all three formats of the same repository."""
+    from .C11 import check_formats
+    d = os.path.join(scratch, "manyrefs")
+    blob = G.Blob(b"x\n")
+    c = G.Commit(G.Tree([G.Entry(G.FILE, b"f", blob)]), [], msg=b"c\n")
+    m = G.Model()
+    for i in range(nrefs):
+        m.refs["refs/heads/b%06d" % i] = c
+    m.refs["refs/tags/t"] = c
+    m.refs["refs/remotes/o/m"] = c
+    gitdir = G.write_model(m, os.path.join(d, "repo"), packed_refs=True)
+    want_groups = {"": 2, "tags": 1, "remotes": 1, "ignored": nrefs}
+    for rep in range(2):
+        sel = ["--tags", "--remotes"]
+        r1 = R.sizer(sz, gitdir, ["--json", "--no-progress", "--names=" + ["none", "full"][rep]] + sel, tmpdir=d, timeout=600)
+        r2 = R.sizer(sz, gitdir, ["--json", "--json-version=2", "--no-progress"] + sel, tmpdir=d, timeout=600)
+        r3 = R.sizer(sz, gitdir, ["-v", "--no-progress"] + sel, tmpdir=d, timeout=600)
+        chk.count(3)
+        if r1.rc or r2.rc or r3.rc:
+            chk.violation(prefix + "/many-refs/run-failed", {"stderr": (r1.err + r2.err + r3.err)[-400:]})
+            continue
+        j1, _ = P.parse_json(r1.out)
+        j2, _ = P.parse_json(r2.out)
+        if not j1 or j1.get("reference_count") != nrefs + 2 or j1.get("reference_groups") != want_groups:
+            chk.violation(prefix + "/many-refs/json-v1", {"reference_count": (j1 or {}).get("reference_count"), "want": nrefs + 2,
+                                                     "groups": (j1 or {}).get("reference_groups")})
+        if not j2 or j2.get("referenceCount", {}).get("value") != nrefs + 2 or j2.get("refgroup.ignored", {}).get("value") != nrefs:
+            chk.violation(prefix + "/many-refs/json-v2", {"referenceCount": (j2 or {}).get("referenceCount")})
+        if j1 and j2:
+            gn = {"tags": "Tags", "remotes": "Remote-tracking refs", "ignored": "Ignored"}
+            j1x = dict(j1, reference_count=nrefs + 2, reference_groups=want_groups)
+            for clause, det in check_formats(j1x, dict(j2, referenceCount=dict(j2.get("referenceCount", {}), value=nrefs + 2)),
+                                             [("0", r3.out)], "many", group_names=gn):
+                chk.violation(prefix + "/many-refs/table/" + clause, det)
+        chk.nontrivial(("manyrefs", rep))
+    chk.cov["many_refs_case_references"] = nrefs + 2
+    shutil.rmtree(d, ignore_errors=True)
+
+
 def run(chk, b, tier):
     n = 150 if tier == "quick" else 3000
     sz = b.sizer()
@@ -296,6 +337,7 @@ def run(chk, b, tier):
             chk.sample(r["sample"], limit=4)
         if r["maxdepth"]:
             depths[r["maxdepth"]] = depths.get(r["maxdepth"], 0) + 1
+    many_refs_case(chk, sz, scratch, 150000 if tier == "quick" else 400000)
     chk.cov["hierarchies_by_max_nesting_depth"] = {str(k): v for k, v in sorted(depths.items())}
     chk.cov["rule"] = ("generated refgroup forests in the repository's gitconfig (nesting 1..20, implicit parents, rule-less "
                        "unions, exclude-only groups, augmented built-ins, symbols with spaces/capitals/quotes/UTF-8, display "
